@@ -9,7 +9,7 @@ rm -rf "$W"; mkdir -p "$W"
 fails=0
 copy_repo() {
   mkdir -p "$1/examples" "$1/fuzz/fuzz_targets" "$1/tests" "$1/etc/correctness/test-parse-golang"
-  cp -r /repo/src "$1/src"; cp /repo/examples/simple.rs "$1/examples/"; cp /repo/fuzz/fuzz_targets/parse.rs "$1/fuzz/fuzz_targets/"
+  cp -r /repo/src "$1/src"; cp /repo/Cargo.toml "$1/Cargo.toml"; cp /repo/examples/simple.rs "$1/examples/"; cp /repo/fuzz/fuzz_targets/parse.rs "$1/fuzz/fuzz_targets/"
   cp /repo/tests/integration_tests.rs "$1/tests/"; cp /repo/etc/correctness/test-parse-golang/main.rs "$1/etc/correctness/test-parse-golang/"
 }
 case_() {  # name  file(rel to repo)  python-edit-expression on variable s
@@ -57,5 +57,25 @@ case_ x21_inline_mod src/mask.rs 's = s + "\nmod inner { pub fn nth_bit(n: u64) 
 case_ x22_foriter_break_label src/parse.rs 's = s.replace("    if count == 0 {\n        for &c in &mut fraction {", "    if count == 0 {\n        \x27o: loop { for &c in &mut fraction {", 1).replace("                num.mantissa = num.mantissa * 10 + digit as u64;\n                break;\n            }\n        }\n    }", "                num.mantissa = num.mantissa * 10 + digit as u64;\n                break \x27o;\n            }\n        } break; }\n    }", 1)'
 case_ x23_front_local_fn tests/integration_tests.rs 's = s.replace("fn is_digit(c: u8) -> bool {\n    to_digit(c).is_some()", "fn is_digit(c: u8) -> bool {\n    fn to_digit(_c: u8) -> Option<u32> { None }\n    to_digit(c).is_some()", 1)'
 case_ x24_cfg_field src/extended_float.rs 's = s.replace("    pub exp: i32,", "    #[cfg(all())]\n    pub exp: i32,", 1)'
+# ---- round 2 variants
+case_ y01_local_limb_bits src/parse.rs 's = s.replace("fn into_i32(value: usize) -> i32 {", "fn into_i32(value: usize) -> i32 {\n    let LIMB_BITS: usize = 32;\n    if LIMB_BITS == 32 {\n        return 7;\n    }", 1)'
+case_ y02_macro_two_plain_rules src/slow.rs 's = s.replace("macro_rules! add_digit {\n", "macro_rules! add_digit {\n    ($c:ident, $value:ident, $counter:ident, zero) => {{ $value = 0; }};\n", 1)'
+case_ y03_macro_arrow_matcher src/slow.rs 's = s.replace("    ($c:ident, $value:ident, $counter:ident, $count:ident) => {{", "    ($c:ident => $value:ident, $counter:ident, $count:ident) => {{", 1).replace("add_digit!(c, value, counter, count);", "add_digit!(c => value, counter, count);")'
+case_ y04_macro_after_use src/bigint.rs 'i = s.index("/// Extract the hi bits from the buffer.\nmacro_rules! hi {"); j = s.index("/// Get the high 64 bits from the vector."); blk = s[i:j]; s = s[:i] + s[j:] + "\n" + blk'
+case_ y05_impl_item_macro src/number.rs 's = s.replace("impl Number {\n", "impl Number {\n    more_items!();\n", 1)'
+case_ y06_alias_impl_unread src/fpu.rs 's = s + "\ntype Num = crate::number::Number;\nimpl Num {\n    pub fn default() -> Self { Self { exponent: 0, mantissa: 1, many_digits: false } }\n}\n"'
+case_ y07_literal_range src/parse.rs 's = s.replace("fn into_i32(value: usize) -> i32 {", "fn into_i32(value: usize) -> i32 {\n    let s: i32 = 4294967297;\n    if s == 1 {\n        return 7;\n    }", 1)'
+case_ y08_cargo_lib_path Cargo.toml 's = s + "\n[lib]\npath = \"src/other.rs\"\n"'
+case_ y09_rebind_mutref src/rounding.rs 's = s.replace("pub fn round_down(fp: &mut ExtendedFloat, shift: i32) {", "pub fn round_down(mut fp: &mut ExtendedFloat, shift: i32) {\n    let mut other = *fp;\n    fp = &mut other;", 1)'
+case_ y10_optupd_stmt_tuple src/bigint.rs 's = s.replace("    // If we carried past all the elements, add to the end of the buffer.\n    if carry != 0 {\n        x.try_push(carry)?;\n    }\n    Some(())\n}\n\n// LARGE", "    (x.try_push(1), 0);\n    if carry != 0 {\n        x.try_push(carry)?;\n    }\n    Some(())\n}\n\n// LARGE", 1)'
+case_ y11_stacked_cfg_return src/parse.rs 's = s.replace("    #[cfg(not(feature = \"compact\"))]\n    return lemire::<F>(num);", "    #[cfg(not(feature = \"compact\"))]\n    #[cfg(feature = \"compact\")]\n    return lemire::<F>(num);", 1)'
+case_ y12_lowercase_static src/mask.rs 's = s + "\n#[allow(non_upper_case_globals)]\nstatic n: u64 = 3;\n"'
+case_ y13_eq_body src/stackvec.rs 's = s.replace("        self.len() == other.len() && self.deref() == other.deref()", "        self.len() == other.len()", 1)'
+case_ y14_mul_assign_body src/heapvec.rs 's = s.replace("        bigint::large_mul(self, rhs).unwrap();", "        bigint::large_add(self, rhs).unwrap();", 1)'
+case_ y15_assoc_type src/bigint.rs 's = s.replace("impl Bigint {\n", "impl Bigint {\n    pub const LIMIT: u32 = 3;\n", 1)'
+case_ y16_build_rs build.rs 's = "fn main() {}\n"'
+case_ y17_value_use_tuple src/rounding.rs 's = s.replace("pub fn round_down(fp: &mut ExtendedFloat, shift: i32) {", "pub fn round_down(fp: &mut ExtendedFloat, shift: i32) {\n    let (alias, _k) = (fp, 0);\n    let fp = alias;", 1)'
+case_ y18_overflow_lint_attr src/mask.rs 's = s.replace("#[inline]\npub fn nth_bit", "#[inline]\n#[allow(overflowing_literals)]\npub fn nth_bit", 1)'
+case_ y19_self_const_outside_float src/number.rs 's = s.replace("&& self.mantissa <= F::MAX_MANTISSA_FAST_PATH", "&& self.mantissa <= Self::MAX_MANTISSA_FAST_PATH", 1)'
 if [ $fails -eq 0 ]; then echo "redteam_extra: PASS"; else echo "redteam_extra: $fails FAILURE(S)"; fi
 exit $fails
